@@ -1,0 +1,60 @@
+//go:build verif
+
+// Contracts for the deductive checks under /verif (comment-only; no code).
+
+package keystore
+
+// ---- C40: every operation of the filesystem keystore addresses the one file  dir/encName(name) ----
+// encName(name): "key_" + lower-case base32 of the name (no '/' and no '.', a property of the
+// base32 alphabet: assumed, exercised by the bounded run)
+//@ spec encName(name string) string
+//@ func encode
+//@   assumed
+//@   pure
+//@   ensures (err == nil) == (name != "")
+//@   ensures err == nil ==> result0 == encName(name)
+// the key file is filepath.Join(ks.dir, encName(name)): stated at the Join call and at the file operation
+//@ macro keyFile(ks, name) = res("call:Join#0", 0)
+
+//@ func (*FSKeystore).Has
+//@   prop C40
+//@   arith int
+//@   requires ks != nil
+//@   modifies all
+//@   site[key_file_path] call:Join : len(arg0) == 2 && arg0[0] == ks.dir && arg0[1] == encName(old(name))
+//@   ensures[empty_name_refused] name == "" ==> err != nil && !called("call:Stat#0")
+//@   site[stats_the_key_file] call:Stat : arg0 == keyFile(ks, name)
+//@ func (*FSKeystore).Put
+//@   prop C40
+//@   arith int
+//@   requires ks != nil
+//@   modifies all
+//@   site[key_file_path] call:Join : len(arg0) == 2 && arg0[0] == ks.dir && arg0[1] == encName(old(name))
+//@   ensures[empty_name_refused] name == "" ==> err != nil && !called("call:OpenFile#0")
+//@   site[creates_the_key_file_and_never_overwrites] call:OpenFile : arg0 == keyFile(ks, name) && arg1 == 193
+//@ func (*FSKeystore).Get
+//@   prop C40
+//@   arith int
+//@   requires ks != nil
+//@   modifies all
+//@   site[key_file_path] call:Join : len(arg0) == 2 && arg0[0] == ks.dir && arg0[1] == encName(old(name))
+//@   ensures[empty_name_refused] name == "" ==> err != nil && !called("call:ReadFile#0")
+//@   site[reads_the_key_file] call:ReadFile : arg0 == keyFile(ks, name)
+//@   site[decodes_what_was_read] call:UnmarshalPrivateKey : arg0 == res("call:ReadFile#0", 0) && res("call:ReadFile#0", 1) == nil
+//@ func (*FSKeystore).Delete
+//@   prop C40
+//@   arith int
+//@   requires ks != nil
+//@   modifies all
+//@   site[key_file_path] call:Join : len(arg0) == 2 && arg0[0] == ks.dir && arg0[1] == encName(old(name))
+//@   ensures[empty_name_refused] name == "" ==> err != nil && !called("call:Remove#0")
+//@   site[removes_the_key_file] call:Remove : arg0 == keyFile(ks, name)
+//@ func decode
+//@   assumed
+//@ func (*FSKeystore).List
+//@   prop C40
+//@   arith int-assumed
+//@   requires ks != nil
+//@   modifies all
+//@   site[lists_its_own_directory] call:Open : arg0 == ks.dir
+//@   site[only_decodable_names] builtin:append : len(arg1) == 1 && arg1[0] == res("call:decode#0", 0) && res("call:decode#0", 1) == nil
